@@ -17,7 +17,7 @@ import (
 
 func init() {
 	Register(&Check{ID: "C16", World: "B/cluster", Gen: genStressB, Run: runStressB, Real: bReal, Stub: bStub,
-		OwnProbes: []string{"stressed_span_kept", "stressed_span_dropped", "stressed_on_non_owner_kept", "late_span_after_relief_on_owner", "probe_sent_to_owner", "both_entry_and_owner_stressed"}})
+		OwnProbes: []string{"stressed_span_kept", "stressed_span_dropped", "stressed_on_non_owner_kept", "late_span_after_relief_on_owner", "probe_sent_to_owner", "both_entry_and_owner_stressed", "batch_waited_for_its_sender"}})
 }
 
 func genStressB(r *Rng, tier string, p *Plan) {
@@ -60,6 +60,14 @@ func genStressB(r *Rng, tier string, p *Plan) {
 			}
 			p.Add(Op{K: "ev", At: now, I: int64(entry), J: int64(t), N: int64(mk), S: PickOf(r, "json", "msgpack"), T: "batch", M: int64(r.Intn(4))})
 		}
+	}
+	if r.Bool(0.3) {
+		// the transmissions' senders are held up for part of the stressed traffic:
+		// batches taken off the pending list wait to be marshalled while further
+		// kept spans are enqueued for the same destination
+		at := 1_300_000 + r.I64n(max(now-1_300_000, 1))
+		p.Add(Op{K: "park_send", At: at})
+		p.Add(Op{K: "release_send", At: at + PickOf(r, p.N["batch_timeout_us"], 2*p.N["batch_timeout_us"], 5*p.N["batch_timeout_us"])})
 	}
 	for t := 0; t < nPre; t++ {
 		now += 20_000
@@ -116,10 +124,29 @@ func runStressB(t *testing.T, p *Plan) *Outcome {
 		const site = "route.Router.processEvent"
 		var evs []*stressEv
 		seenAt := map[string]bool{} // node/trace seen
+		gate := &SendGate{}
+		gate.Install()
+		defer gate.Uninstall()
 		var last int64
 		for _, op := range p.Ops {
 			op := op
 			if int(op.I) >= len(w.nodes) {
+				continue
+			}
+			switch op.K {
+			case "park_send":
+				w.drv.AtSig(us(op.At), "park_send", fmt.Sprintf("op/%d", op.ID), "", func() { gate.Park(); out.Fault("senders_held") })
+				continue
+			case "release_send":
+				if op.At > last {
+					last = op.At
+				}
+				w.drv.AtSig(us(op.At), "release_send", fmt.Sprintf("op/%d", op.ID), "", func() {
+					gate.Release()
+					if gate.Held > 0 {
+						out.Probe("batch_waited_for_its_sender")
+					}
+				})
 				continue
 			}
 			if op.I < 0 {
